@@ -142,7 +142,7 @@ def plan(tier, seed):
     for j in range(nprog):
         for p in asmsim.PASSES:
             for when in ('entry', 'exit'):
-                for exc in ('asm', 'foreign'):
+                for exc in ('asm', 'foreign', 'oserror'):
                     nths = (1, 2) if p in ('resolve_register_aliases', 'transform_compressible', 'lex_tokens', 'parse_item', 'read_lines') else (1,)
                     for nth in nths:
                         specs.append({'k': 'p', 'j': j, 'pass': p, 'when': when, 'exc': exc, 'nth': nth})
